@@ -1314,9 +1314,12 @@ class ExtendNode(ViewRepresentation):
         """
         assert isinstance(replacement_map, dict)
         new_sources = [s.replace_leaves(replacement_map) for s in self.sources]
+        partition_by = self.partition_by
+        if self.windowed_situation and (len(partition_by) < 1):
+            partition_by = 1  # keep an explicit partition_by=1
         return new_sources[0].extend_parsed_(
             parsed_ops=self.ops,
-            partition_by=self.partition_by,
+            partition_by=partition_by,
             order_by=self.order_by,
             reverse=self.reverse,
         )
